@@ -316,7 +316,7 @@ static void p0_run(uint64_t idx, vh_rng_t * rng) {
 
 int main(int argc, char ** argv) {
     static const vh_phase_t phases[] = { { "messages", p0_count, p0_run } };
-    vh_decoy_enable(7); vh_require("decoy.messages_run_on_a_second_context"); vh_require("unit.defined.relative.after-defined-compound"); vh_require("unit.defined.relative.after-undefined-compound");
+    vh_scribble_chunk_in_callbacks(1); vh_decoy_enable(7); vh_require("decoy.messages_run_on_a_second_context"); vh_require("unit.defined.relative.after-defined-compound"); vh_require("unit.defined.relative.after-undefined-compound");
     vh_require("unit.defined.relative.after-common"); vh_require("unit.undefined.relative.after-defined-compound");
     vh_require("unit.defined.absolute.after-defined-compound"); vh_require("unit.overlap_first_match_matters");
     vh_require("handler.iscmd_checks"); vh_require("messages.ended_by_zero_length_input_call"); vh_require("tables.installed_on_a_live_context"); vh_require("messages.on_a_context_that_served_earlier_messages"); vh_require("unit.first_match_without_handler_shadows_later_handler"); vh_require("tables.from_shipped_patterns");
